@@ -1,4 +1,4 @@
-import SieveModel.Model.Client
+import SieveModel.Lemmas.ClientState
 import SieveModel.Generated.ClientMethods
 import SieveModel.Generated.MsConsts
 /-!
@@ -28,6 +28,33 @@ theorem authenticated_set_only_by_authenticate :
 theorem guarded_refuses_unauthenticated {α : Type} (c : Client) (f : Client → Res α)
     (h : c.authenticated = false) : guarded c f = (.error .error, c) := by
   simp [guarded, h]
+
+/-- `connect` marks the client authenticated only when it returned True, i.e. only when the
+    AUTHENTICATE exchange on THIS connection ended with OK (the flag is cleared first) -/
+theorem authenticated_only_after_successful_connect (c : Client) (env : ConnEnv) (net : Net)
+    (l p z : Bytes) (useTls : Bool) (m : Option Bytes)
+    (h : (connect c env net l p z useTls m).2.authenticated = true) :
+    (connect c env net l p z useTls m).1 = .ok true :=
+  (Client.connect_spec c env net l p z useTls m).1 h
+
+/-- with STARTTLS requested, the only bytes ever written on the plain channel are the STARTTLS
+    command: no AUTHENTICATE and no credentials before the handshake has succeeded — whatever the
+    server answers at any step, whether the handshake fails, whatever is announced -/
+theorem nothing_but_starttls_in_plaintext (c : Client) (env : ConnEnv) (net : Net)
+    (l p z : Bytes) (m : Option Bytes) :
+    ∀ w ∈ (connect c env net l p z true m).2.writes, w.1 = false → w.2 = commandBytes (sb "STARTTLS") [] :=
+  (Client.connect_spec c env net l p z true m).2.1 rfl
+
+/-- a refused, failed or unavailable STARTTLS makes connect fail: success implies the TLS channel -/
+theorem connect_success_implies_tls (c : Client) (env : ConnEnv) (net : Net) (l p z : Bytes) (m : Option Bytes)
+    (h : (connect c env net l p z true m).1 = .ok true) :
+    (connect c env net l p z true m).2.tls = true ∧ env.tlsOk = true :=
+  (Client.connect_spec c env net l p z true m).2.2 rfl h
+
+/-- the capabilities used for mechanism selection are read after the handshake: the wrapped
+    client starts with an empty capability map and an empty buffer -/
+theorem capabilities_reset_at_handshake (c : Client) :
+    (tlsWrapped c).caps = [] ∧ (tlsWrapped c).r.buf = [] ∧ (tlsWrapped c).tls = true := ⟨rfl, rfl, rfl⟩
 
 example : (havespace { r := { buf := [], net := { stream := [], sched := [] } } } (sb "n") 1).1 = .error .error := rfl
 
